@@ -2,7 +2,7 @@
 // Child module of src/raft/cluster.rs (current file of /repo, compiled in the `vslice_raft` slice crate
 // against the tokio/tracing/chrono/vkcoll shims, after the de-async normalisation of lib/vk/slices.py).
 // Concrete per harness (the shape): the sequence of node ids (a restricted-growth string: every pattern of
-// repeats up to renaming), the voter flag of each id, the construction path, the removed id.
+// repeats up to renaming), the voter flag of each addition, the construction path, the removed id.
 // Symbolic: the arguments of two mark_active calls, one mark_inactive call and one update_node_role(.., Leader)
 // call, each ranging over ids 0..=3 (0 is never a member, so "active non-member" and "no leader" are included).
 #![allow(dead_code, unused_imports)]
@@ -22,12 +22,14 @@ struct Model {
     leader: [bool; 4],
 }
 
+/// Is `id` a voting member?  The flag of its LAST addition that is still present decides (a re-added id is
+/// the same member with an updated role); shapes built from a ready-made vector use one flag per id.
 fn is_voter(m: &Model, id: u64) -> bool {
     let mut v = false;
     let mut i = 0;
     while i < m.n {
-        if m.present[i] && m.ids[i] == id && m.voter[i] {
-            v = true;
+        if m.present[i] && m.ids[i] == id {
+            v = m.voter[i];
         }
         i += 1;
     }
@@ -42,8 +44,8 @@ fn distinct_voters(m: &Model) -> (usize, usize) {
 }
 
 /// ids: concrete sequence of node ids (values 1..=3), n = its length.
-/// vmask: concrete voter flag per id (bit id-1); repeated additions of one id agree on it, so
-///      "distinct voting members" is unambiguous.  (Symbolic flags make `voters()` return a Vec of
+/// vmask: concrete voter flag per ADDITION (bit i = i-th entry).  A later addition of the same id changes
+///      that member's class (voter <-> learner).  (Symbolic flags make `voters()` return a Vec of
 ///      symbolic length, which CBMC does not get through — DESIGN.md R4.)
 /// via: 0 = ClusterConfig::add_node for every entry, then ClusterManager::new
 ///      1 = first entry in the initial config, the rest through ClusterManager::add_node
@@ -54,11 +56,10 @@ fn distinct_voters(m: &Model) -> (usize, usize) {
 pub fn health(ids: &[u64], vmask: u8, via: u8, rm: u8) {
     let n = ids.len();
     let mut m = Model { ids: [0; MAXN], voter: [false; MAXN], present: [false; MAXN], n, active: [false; 4], leader: [false; 4] };
-    let vflag: [bool; 4] = [false, vmask & 1 != 0, vmask & 2 != 0, vmask & 4 != 0];
     let mut i = 0;
     while i < n {
         m.ids[i] = ids[i];
-        m.voter[i] = vflag[ids[i] as usize];
+        m.voter[i] = (vmask >> i) & 1 != 0;
         m.present[i] = true;
         i += 1;
     }
